@@ -104,10 +104,21 @@ type world struct {
 	verifier bool
 	tevCalls atomic.Int64
 	sig      *keys.Key
+	// view is set when this world is one issuer of a provider with a request-dependent issuer (multi.go): requests go to
+	// the view's host, the expected issuer of everything issued is the view's issuer
+	view *mtView
 }
 
 // newWorld is opdrv.NewWorld with the option of wrapping the storage in tevStore.
 func newWorld(sig *keys.Key, verifier, extras bool) (*world, *mon.PanicInfo) {
+	return newWorldIssuer(sig, verifier, extras, nil)
+}
+
+// newWorldIssuer is newWorld with the provider's issuer strategy given (nil = the static default issuer).
+func newWorldIssuer(sig *keys.Key, verifier, extras bool, issuerFn func(bool) (op.IssuerFromRequest, error)) (*world, *mon.PanicInfo) {
+	if issuerFn == nil {
+		issuerFn = op.StaticIssuer(opdrv.DefaultIssuer)
+	}
 	st := vstore.New(sig)
 	st.TEActorClaim = true
 	st.TEJWTTypeOK = verifier
@@ -132,7 +143,7 @@ func newWorld(sig *keys.Key, verifier, extras bool) (*world, *mon.PanicInfo) {
 	var cerr error
 	pi := mon.Catch(func() {
 		cfg := opdrv.DefaultConfig()
-		p, err := op.NewProvider(&cfg, storage, op.StaticIssuer(opdrv.DefaultIssuer), op.WithLogger(opdrv.Discard))
+		p, err := op.NewProvider(&cfg, storage, issuerFn, op.WithLogger(opdrv.Discard))
 		if err != nil {
 			cerr = err
 			return
